@@ -180,13 +180,21 @@ func TestC19(t *testing.T) {
 	var evals, nontrivial, transitions int64
 	states := map[string]bool{}
 	idx := 0
+	// the configuration reaches the server as a parsed store or through a configuration file.
+	cfgVias := []string{"store", "json", "yaml", "yml"}
+	cfgDir := t.TempDir()
 	for ni, nc := range names {
 		for sub := 0; sub < 4; sub++ {
 			hasResolve, hasFriend := sub&1 != 0, sub&2 != 0
 			if nc.cfgName == "" && sub != 0 {
 				continue // names that cannot be configured
 			}
-			for hi, hist := range histories {
+			for hi0 := 0; hi0 < len(histories)*len(cfgVias); hi0++ {
+				hi, hist := hi0%len(histories), histories[hi0%len(histories)]
+				via := cfgVias[hi0/len(histories)]
+				if via != "store" && sub == 0 {
+					continue // nothing configured: the file adds nothing
+				}
 				idx++
 				if !env.Mine(idx) {
 					continue
@@ -200,7 +208,17 @@ func TestC19(t *testing.T) {
 					// the router behind the name is also known under another friend name, listed first.
 					st.FriendConfigs = []config.FriendConfig{{Name: "first-name-of-the-same-router", IP: ipFriend.String()}, {Name: strings.TrimSuffix(nc.query, ".myco"), IP: ipFriend.String()}}
 				}
-				node, err := kit.NewNode(kit.NodeOpts{Name: "R", ID: pool[0], Store: st, StateOnly: true})
+				opts := kit.NodeOpts{Name: "R", ID: pool[0], Store: st, StateOnly: true}
+				if via != "store" {
+					// the same configuration written as a file and read by the real loader.
+					cfg, err := loadViaFile(cfgDir, via, pool[0], st)
+					if err != nil {
+						rep.Violate("config-file-rejected/"+via, fmt.Sprintf("valid %s configuration file rejected for name %q: %v", via, nc.cfgName, err), nil)
+						continue
+					}
+					opts.Config = cfg
+				}
+				node, err := kit.NewNode(opts)
 				if err != nil {
 					rep.Violate("config-rejected", fmt.Sprintf("valid configuration rejected for name %q: %v", nc.cfgName, err), nil)
 					continue
